@@ -1,6 +1,6 @@
 """Property -> rules table. Each rule callable: (prog, tier, repo) -> [RuleResult]."""
 from .rules import traversal_instances as TI
-from .rules import printer_rules, parser_progress
+from .rules import printer_rules, parser_progress, loc_enclose
 from .rules import gate, lookup_unwrap, heap, witness, incremental, optimizer, const_arith, shape, backend, printer_rules, comment_linear, enum_evidence, ssa_shared, lex_bounds, gc_rules, scope, eval_order, guard_table, relation, type_walker, str_slice, loc_guard, sweep_window
 
 PROPERTIES = {}
@@ -130,6 +130,18 @@ import os as _os
 for _p in _os.environ.get('SA_UNCLAIMED', 'C09,C11').split(','):
     pass
 
+prop('C14', COMMON +
+     'Clause "a position encloses the positions of its sub-parts": LOC-ENCLOSES traces every Location the parser stores in a '
+     'syntax node back to its sources (locations of peeked/consumed tokens, of child nodes, parser.last_location, parameters; '
+     'through copies, references, Location::union and re-assigned locals, tuple components kept apart) and requires, for each '
+     'child of each of the 65 location-carrying node constructions, one source obtained on every path before the child and '
+     'one obtained on every path between the child and the construction - union takes min start / max end and tokens are '
+     'consumed in source order. Clause "for a name the position covers exactly its characters": NAME-LOC-PAIR - every Id '
+     'node takes loc and name from the same token. Does not decide the lexer\'s line/column bookkeeping, that positions lie '
+     'inside the document, or that siblings do not overlap.',
+     [loc_enclose.run, loc_enclose.run_name_loc_pair],
+     ['tokens are consumed in source order and the lexer assigns increasing positions (C05 LEX-BOUNDS side)'])
+
 prop('C17', COMMON +
      'Rules over the MIR of samlang-heap, anchors resolved by role: PSTR-TAG (only the union\'s own impls touch its '
      'fields; the single encoder and every decoder use the same shift and tag byte, the tag is the top byte and is not a '
@@ -168,7 +180,8 @@ prop('C03', COMMON +
      'identity field, e.g. class-statics vs instance types - the accepted-but-unlowerable programs). Does not decide '
      'type soundness of the checker or validity of the emitted module.',
      [const_arith.run, shape.run_shape, backend.run_ts_splice, gate.run_assign_all_paths,
-      lambda prog, tier, repo: scope.run_reentrant_restore(prog, tier, repo, crates=('samlang_compiler',)), relation.run],
+      lambda prog, tier, repo: scope.run_reentrant_restore(prog, tier, repo, crates=('samlang_compiler',)), relation.run,
+      scope.run_iflet_else, gate.run_exhaustive_gate, gate.run_placeholder_ordinal],
      ['A-05.1: parenthesised lists reaching a Tuple construction are non-empty (the first element is parsed before)'])
 
 prop('C04', COMMON +
